@@ -25,6 +25,10 @@ def register(CHECKS, H):
         q.append({"unit": u, "args": ["--part", "graphs", "--n", "6", "--W", "1,2", "--complete", "1", "--selfcheck", "500"], "shards": 2})
         q.append({"unit": u, "args": ["--part", "ties", "--n", "5", "--W", "1,2", "--cap", "120", "--variants", "0", "--selfcheck", "5000"], "shards": 4})
         q.append({"unit": u, "args": ["--part", "union", "--n", "5", "--W", "1,2", "--block", "150", "--selfcheck", "50"]})
+    # every complete graph on 6 vertices with three weights (dense-array build, documented numbering): a seeded change that
+    # skipped make_heap for two later common neighbours needs 6 vertices and three distinct values - no 5-vertex scope and no
+    # two-weight scope shows it
+    q.append({"unit": "c12_dense", "args": ["--part", "graphs", "--n", "6", "--W", "1,2,3", "--complete", "1", "--variants", "0", "--selfcheck", "20000"], "shards": 14})
     for u in tbb:
         q.append({"unit": u, "args": ["--part", "weak", "--n", "4", "--selfcheck", "20"]})
         q.append({"unit": u, "args": ["--part", "graphs", "--n", "5", "--W", "1,2", "--selfcheck", "500"]})
@@ -58,7 +62,8 @@ def register(CHECKS, H):
                       "tied edges through Flag_complex_edge_collapser::process_edges, compared with brute-force flag complexes and "
                       "persistence by boundary-matrix column reduction over Z_2 and Z_3"),
         "level_text": ("every labelled weighted graph on 4 vertices with weights {1..6} (= every weak order of the edges), on 5 vertices "
-                       "with weights {1,2}, every complete graph on 5 vertices with weights {1,2,3} and on 6 vertices with weights {1,2}; "
+                       "with weights {1,2}, every complete graph on 5 vertices with weights {1,2,3} and on 6 vertices with weights {1,2} (and {1,2,3} in the "
+                       "dense-array build); "
                        "thorough only: every graph on 5 vertices with weights {1,2,3,4} and on 6 vertices with weights {1,2} (default "
                        "build), every graph on 5 vertices with weights {1,2,3} and every complete graph on 6 vertices with weights "
                        "{1,2,3} (dense-array build); all through the documented entry point, the smaller scopes in 2 numberings "
@@ -80,7 +85,7 @@ def register(CHECKS, H):
                  "non-trivial = the collapse removed or delayed at least one edge (only then are the two filtrations different objects)"),
         "bounds": {
             "quick": ("sparse+dense: weak orders x tie orders on 4 vertices; graphs n=4 W={1..6}, n=5 W={1,2} (2 numberings); complete "
-                      "graphs n=5 W={1,2,3} (2 numberings), n=6 W={1,2}; tie orders of n=5 W={1,2} graphs with <= 120 tie orders; unions "
+                      "graphs n=5 W={1,2,3} (2 numberings), n=6 W={1,2}, n=6 W={1,2,3} (dense-array build, 14.3M graphs); tie orders of n=5 W={1,2} graphs with <= 120 tie orders; unions "
                       "of 150 graphs. TBB builds: weak orders n=4, graphs n=5 W={1,2}, unions"),
             "thorough": ("sparse+dense: graphs n=5 W={1,2,3} (numbering 1), n=6 W={1} and complete n=6 W={1,2} (2 numberings); tie orders "
                          "of n=5 W={1,2} graphs with <= 144 orders; weak orders n=4; unions over n=5 W={1,2,3}. sparse only: every graph "
